@@ -6,6 +6,7 @@ import (
 	"fmt"
 	"math/rand"
 	"net/url"
+	"os"
 	"servitor/jtp"
 	"servitor/mime"
 	"servitor/verifkit"
@@ -88,8 +89,14 @@ func verifPageObject(rng *rand.Rand, pages []verifPage, p int, ordered bool, lin
 	case pg.N > 0 || rng.Intn(2) == 0:
 		obj[key] = verifItems(p, pg.N)
 	}
-	if rng.Intn(2) == 0 {
+	/* totalItems is advisory: servers hide it, report 0, or let it go stale */
+	switch rng.Intn(5) {
+	case 0:
 		obj["totalItems"] = 99
+	case 1:
+		obj["totalItems"] = 0
+	case 2:
+		obj["totalItems"] = pg.N
 	}
 	if pg.Next != 0 {
 		obj[nextKey] = link(pg.Next)
@@ -141,6 +148,12 @@ func verifRunPaging(out *verifkit.Trace, rng *rand.Rand, sim *verifsim.Sim, sid 
 	}
 	ev := verifkit.M{"ev": "paging", "sid": sid, "pages": pagesOut, "embedded": embedded, "ordered": ordered, "panic": false}
 	out.Emit(verifkit.M{"ev": "begin", "sid": sid, "pages": pagesOut, "sizes": in.Sizes, "embedded": embedded})
+	/* a session that does not finish is an observation too: the whole process is given up */
+	watchdog := time.AfterFunc(6*time.Second, func() {
+		out.Emit(verifkit.M{"ev": "hang", "sid": sid})
+		os.Exit(3)
+	})
+	defer watchdog.Stop()
 	calls := []verifkit.M{}
 	if err != nil {
 		ev["panic"] = true
@@ -223,6 +236,14 @@ func verifRandomLayout(rng *rand.Rand) verifPagingIn {
 		sizes[i] = uint(rng.Intn(7))
 		if rng.Intn(6) == 0 {
 			sizes[i] = uint(10 + rng.Intn(20))
+		}
+	}
+	if rng.Intn(3) == 0 {
+		/* requests that end exactly at page ends */
+		for i := range sizes {
+			if i < len(pages) && pages[i].N > 0 {
+				sizes[i] = uint(pages[i].N)
+			}
 		}
 	}
 	return verifPagingIn{Pages: pages, Sizes: sizes}
